@@ -1346,10 +1346,14 @@ pub fn pinned_capture_mate_family(rng: &mut Rng, shard: u64, nshards: u64, out: 
                             let valid = |x: &Position| x.chess_root_ok().is_ok();
                             maker_calls += 1;
                             if let Some(mated) = mate_maker(rng, &p, m, &valid) {
-                                out.push(Crafted { family: "pinned-piece-captures-pinner-mate", pre: mated, moves: vec![] });
-                                break 'geometry;
+                                // the capture must be the ONLY mate: with a second mate available the search
+                                // may rightly play that one, and a lost capture would go unnoticed
+                                if crate::tags::mating_moves(&mated) == vec![m] {
+                                    out.push(Crafted { family: "pinned-piece-captures-pinner-mate", pre: mated, moves: vec![] });
+                                    break 'geometry;
+                                }
                             }
-                            if maker_calls >= 16 {
+                            if maker_calls >= 48 {
                                 break 'geometry;
                             }
                         }
@@ -1458,7 +1462,8 @@ pub fn interposition_near_mate_family(rng: &mut Rng, shard: u64, nshards: u64, o
                                     }
                                     let after = t.apply(m);
                                     let replies = after.legal_moves();
-                                    if after.in_check() && !replies.is_empty() && replies.iter().all(|r| r.to == b) {
+                                    // and no real mate in one anywhere: otherwise the search may announce that one
+                                    if after.in_check() && !replies.is_empty() && replies.iter().all(|r| r.to == b) && crate::tags::mating_moves(&t).is_empty() {
                                         out.push(Crafted { family: "interposition-near-mate", pre: t, moves: vec![] });
                                         break 'geometry;
                                     }
